@@ -94,6 +94,56 @@ func sweepAlphabet() []CacheOp {
 	return ops
 }
 
+// genCacheBulk: populations of 70..300 objects, mass removals that leave a
+// handful of survivors listed at stale / equal / newer versions (some twice),
+// redeliveries, and mass re-creation - thresholds on sizes and on the ratio of
+// removed to surviving entries are crossed in both directions.
+func genCacheBulk(rng *rand.Rand, sc *CacheScen) {
+	n := pickInt(rng, 70, 100, 130, 200)
+	key := func(i int) world.Spec {
+		return world.Spec{NS: "n1", Name: fmt.Sprintf("bulk%03d", i), Labels: map[string]string{"app": pick(rng, "a", "a", "b")}}
+	}
+	full := func(v int) []world.Spec {
+		l := make([]world.Spec, 0, n)
+		for i := 0; i < n; i++ {
+			o := key(i)
+			o.RV = strconv.Itoa(v)
+			l = append(l, o)
+		}
+		return l
+	}
+	for round := 1 + rng.Intn(3); round > 0; round-- {
+		sc.Ops = append(sc.Ops, CacheOp{Op: "sync", List: full(pickInt(rng, 10, 10, 12))})
+		hot := []int{rng.Intn(n), rng.Intn(n), rng.Intn(n), rng.Intn(n)}
+		for i := rng.Intn(6); i > 0; i-- {
+			o := key(hot[rng.Intn(len(hot))])
+			o.RV = strconv.Itoa(5 + rng.Intn(25))
+			sc.Ops = append(sc.Ops, CacheOp{Op: "update", Typ: pick(rng, "create", "update", "update", "delete"), Obj: o})
+		}
+		// the mass removal: few survivors, mostly the hot keys
+		var surv []world.Spec
+		for i := rng.Intn(12); i > 0; i-- {
+			k := hot[rng.Intn(len(hot))]
+			if rng.Intn(3) == 0 {
+				k = rng.Intn(n)
+			}
+			o := key(k)
+			o.RV = strconv.Itoa(5 + rng.Intn(25))
+			surv = append(surv, o)
+		}
+		if rng.Intn(3) == 0 {
+			sc.Ops = append(sc.Ops, CacheOp{Op: "refilter", List: surv, Filter: randFilter(rng)})
+		} else {
+			sc.Ops = append(sc.Ops, CacheOp{Op: "sync", List: surv})
+		}
+		for i := rng.Intn(5); i > 0; i-- {
+			o := key(hot[rng.Intn(len(hot))])
+			o.RV = strconv.Itoa(5 + rng.Intn(25))
+			sc.Ops = append(sc.Ops, CacheOp{Op: "update", Typ: pick(rng, "create", "update", "update", "delete"), Obj: o})
+		}
+	}
+}
+
 func genCache(g GenCtx) interface{} {
 	sc := &CacheScen{Prop: g.Prop}
 	alpha := sweepAlphabet()
@@ -116,10 +166,33 @@ func genCache(g GenCtx) interface{} {
 	}
 	rng := g.Rng
 	sc.Filter = randFilter(rng)
-	nkeys := 1 + rng.Intn(3)
-	n := 1 + rng.Intn(12)
-	for i := 0; i < n; i++ {
-		sc.Ops = append(sc.Ops, genCacheOp(rng, nkeys))
+	if g.Idx%32 == 4 {
+		if rng.Intn(2) == 0 {
+			sc.Filter = world.FilterSpec{Op: "null"}
+		}
+		genCacheBulk(rng, sc)
+	} else {
+		nkeys := 1 + rng.Intn(3)
+		n := 1 + rng.Intn(12)
+		for i := 0; i < n; i++ {
+			sc.Ops = append(sc.Ops, genCacheOp(rng, nkeys))
+		}
+	}
+	if rng.Intn(4) == 0 {
+		// resource versions are 64-bit revisions: the same history far up the
+		// number line (around 2^31, 2^32, 2^53 and just below 2^63)
+		base := []int64{1<<31 - 4, 1<<32 - 4, 1<<53 - 4, 1<<63 - 64}[rng.Intn(4)]
+		shift := func(o *world.Spec) {
+			if v, err := strconv.Atoi(o.RV); err == nil && v >= 0 && v < 50 && strconv.Itoa(v) == o.RV {
+				o.RV = strconv.FormatInt(base+int64(v), 10)
+			}
+		}
+		for i := range sc.Ops {
+			shift(&sc.Ops[i].Obj)
+			for j := range sc.Ops[i].List {
+				shift(&sc.Ops[i].List[j])
+			}
+		}
 	}
 	sc.Readers = rng.Intn(3)
 	sc.Sim = SimCfg{Strategy: randStrategy(rng, []string{"newCache>c.run", "reader"}), PermuteMaps: true, MaxSteps: 100000}
